@@ -24,6 +24,8 @@ import (
 type probeCase struct {
 	probe univ.Probe
 	depth int
+	// whole: the value alphabet consists of whole struct values (multi-field records), not of values of one probe field F
+	whole bool
 	newS  func(w io.Writer, comp string, bs int) (statics.Enc, error) // nil = dynamic
 }
 
@@ -39,7 +41,7 @@ func probes(tier string) []probeCase {
 		if s.Probe.Expr.Elem != nil {
 			d = 1
 		}
-		ps = append(ps, probeCase{s.Probe, d, s.New})
+		ps = append(ps, probeCase{probe: s.Probe, depth: d, newS: s.New})
 	}
 	tags2 := []string{``, `json:"f,omitempty"`}
 	if tier == "thorough" {
@@ -47,18 +49,19 @@ func probes(tier string) []probeCase {
 	}
 	for _, e := range univ.Exprs(2) {
 		for _, tag := range tags2 {
-			ps = append(ps, probeCase{univ.DynProbe(e, tag), 2, nil})
+			ps = append(ps, probeCase{probe: univ.DynProbe(e, tag), depth: 2})
 		}
 	}
 	// dynamic twins of the depth<=1 universe (exercise SchemaForType/Schema.Codec by value) on one tag
 	for d := 0; d <= 1; d++ {
 		for _, e := range univ.Exprs(d) {
-			ps = append(ps, probeCase{univ.DynProbe(e, `json:"f,omitempty"`), d, nil})
+			ps = append(ps, probeCase{probe: univ.DynProbe(e, `json:"f,omitempty"`), depth: d})
 		}
 	}
+	ps = append(ps, multiFieldProbes()...)
 	if tier == "thorough" {
 		for _, e := range univ.Exprs(3) {
-			ps = append(ps, probeCase{univ.DynProbe(e, []string{``, `json:"f,omitempty"`}[len(e.Chain())%2]), 3, nil})
+			ps = append(ps, probeCase{probe: univ.DynProbe(e, []string{``, `json:"f,omitempty"`}[len(e.Chain())%2]), depth: 3})
 		}
 	}
 	memoP[tier] = ps
@@ -98,9 +101,87 @@ const (
 
 func mkRecord(pc probeCase, v reflect.Value) reflect.Value {
 	r := reflect.New(pc.probe.Type).Elem()
+	if pc.whole {
+		r.Set(v)
+		return r
+	}
 	univ.SetCanaries(r)
 	univ.ProbeField(r).Set(v)
 	return r
+}
+
+// pf returns the part of a record the alphabet ranges over: the probe field, or the whole record.
+func pf(pc probeCase, r reflect.Value) reflect.Value {
+	if pc.whole {
+		return r
+	}
+	return univ.ProbeField(r)
+}
+
+// multiField builds records with six pointer fields over the given element types (allocation order matters for
+// anything that hands out per-type storage), plus one with mixed collections.
+func multiFieldProbes() []probeCase {
+	i64, str := reflect.TypeOf(int64(0)), reflect.TypeOf("")
+	var out []probeCase
+	mk := func(name string, ts []reflect.Type) {
+		var fs []reflect.StructField
+		for i, t := range ts {
+			fs = append(fs, reflect.StructField{Name: fmt.Sprintf("F%d", i+1), Type: t, Tag: reflect.StructTag(fmt.Sprintf(`json:"f%d"`, i+1))})
+		}
+		st := reflect.StructOf(fs)
+		out = append(out, probeCase{probe: univ.Probe{Name: "multi-field " + name, Expr: &univ.Expr{Op: "struct", Elem: &univ.Expr{Op: name}}, Tag: `json:"f"`, Type: st}, depth: 2, whole: true})
+	}
+	for mask := 0; mask < 64; mask++ {
+		var ts []reflect.Type
+		name := ""
+		for i := 0; i < 6; i++ {
+			if mask&(1<<uint(i)) != 0 {
+				ts = append(ts, reflect.PointerTo(str))
+				name += "S"
+			} else {
+				ts = append(ts, reflect.PointerTo(i64))
+				name += "I"
+			}
+		}
+		mk("ptrs:"+name, ts)
+	}
+	mk("mixed-1", []reflect.Type{reflect.TypeOf([]*int64(nil)), reflect.PointerTo(str), reflect.PointerTo(i64), reflect.TypeOf(map[string]*string(nil)), reflect.PointerTo(i64), reflect.TypeOf((*[]string)(nil)), reflect.PointerTo(str), reflect.PointerTo(i64)})
+	mk("mixed-2", []reflect.Type{reflect.PointerTo(reflect.TypeOf(univ.Rec{})), reflect.PointerTo(i64), reflect.TypeOf((**int64)(nil)), reflect.PointerTo(reflect.TypeOf(univ.Rec{})), reflect.TypeOf((*map[string]int64)(nil)), reflect.PointerTo(i64)})
+	return out
+}
+
+// wholeValues: distinct non-nil values everywhere / alternating nil / all nil.
+func wholeValues(t reflect.Type) []reflect.Value {
+	var out []reflect.Value
+	for variant := 0; variant < 4; variant++ {
+		v := reflect.New(t).Elem()
+		for i := 0; i < t.NumField(); i++ {
+			fv := univ.Values(t.Field(i).Type, true)
+			// skip the nil-ish first value unless the variant asks for it
+			var pick reflect.Value
+			switch variant {
+			case 0:
+				pick = fv[1+(i%(len(fv)-1))]
+			case 1:
+				if i%2 == 0 {
+					pick = fv[0]
+				} else {
+					pick = fv[len(fv)-1]
+				}
+			case 2:
+				if i%2 == 1 {
+					pick = fv[0]
+				} else {
+					pick = fv[1+((i+3)%(len(fv)-1))]
+				}
+			default:
+				pick = fv[0]
+			}
+			v.Field(i).Set(pick)
+		}
+		out = append(out, v)
+	}
+	return out
 }
 
 func seqDesc(vals []reflect.Value) string {
@@ -234,17 +315,17 @@ func checkC01(c *fw.Ctx, pc probeCase, recs []reflect.Value, cfg config, out []b
 		for i := range recs {
 			want := reflect.New(pc.probe.Type).Elem()
 			want.Set(recs[i])
-			f := univ.ProbeField(want)
-			if tagc == "omitempty" && f.IsZero() && f.Kind() != reflect.Struct { // structs are never omitted (as in encoding/json)
+			f := pf(pc, want)
+			if !pc.whole && tagc == "omitempty" && f.IsZero() && f.Kind() != reflect.Struct { // structs are never omitted (as in encoding/json)
 				f.Set(reflect.Zero(f.Type()))
 			}
 			got := res.Records[i]
 			if bad := univ.CanariesIntact(got, 0, 0, 0); bad != "" {
-				c.Violation("decode-wrote-outside-field|"+locusT+"|"+gv.ValueClass(univ.ProbeField(recs[i])), fmt.Sprintf("record %d: excluded neighbour field modified by decoding (%s) — %s", i, bad, desc), detail)
+				c.Violation("decode-wrote-outside-field|"+locusT+"|"+gv.ValueClass(pf(pc, recs[i])), fmt.Sprintf("record %d: excluded neighbour field modified by decoding (%s) — %s", i, bad, desc), detail)
 				break
 			}
-			if path, loc, vc := gv.DiffLocus(univ.ProbeField(want), univ.ProbeField(got)); path != "" {
-				c.Violation("wrong-value|"+loc+"|"+vc, fmt.Sprintf("record %d read back into %s as %s, written %s (difference at %s) — %s", i, target, gv.Show(univ.ProbeField(got)), gv.Show(univ.ProbeField(recs[i])), path, desc), detail)
+			if path, loc, vc := gv.DiffLocus(pf(pc, want), pf(pc, got)); path != "" {
+				c.Violation("wrong-value|"+loc+"|"+vc, fmt.Sprintf("record %d read back into %s as %s, written %s (difference at %s) — %s", i, target, gv.Show(pf(pc, got)), gv.Show(pf(pc, recs[i])), path, desc), detail)
 				break
 			}
 		}
@@ -255,7 +336,7 @@ func firstValueClass(recs []reflect.Value) string {
 	if len(recs) == 0 {
 		return "none"
 	}
-	return gv.ValueClass(univ.ProbeField(recs[0]))
+	return gv.ValueClass(recs[0])
 }
 
 func checkC02(c *fw.Ctx, pc probeCase, recs []reflect.Value, cfg config, out []byte, desc string, detail map[string]interface{}, chain, tagc string) {
@@ -286,7 +367,7 @@ func checkC02(c *fw.Ctx, pc probeCase, recs []reflect.Value, cfg config, out []b
 			idx := len(datums) + len(ds)
 			vc := "?"
 			if idx < len(recs) {
-				vc = gv.ValueClass(univ.ProbeField(recs[idx]))
+				vc = gv.ValueClass(pf(pc, recs[idx]))
 			}
 			c.Violation("payload-not-avro|"+locusT+"|"+vc, fmt.Sprintf("block %d (count %d, %d bytes: %x) is not the encoding of %d records under the embedded schema %s: %v — %s", bi, b.Count, len(b.Payload), clipB(b.Payload), b.Count, clipS(s.Print(nil)), err, desc), detail)
 			return
@@ -325,11 +406,11 @@ func checkC02(c *fw.Ctx, pc probeCase, recs []reflect.Value, cfg config, out []b
 				kind = "length"
 			}
 			sig := "wrong-datum|" + loc + "|" + kind
-			if kind == "union-branch" && containsPtrToInvalid(univ.ProbeField(recs[i])) {
+			if kind == "union-branch" && containsPtrToInvalid(pf(pc, recs[i])) {
 				// identify the known defect by its input: a non-nil pointer to an invalid null.* wrapper
 				sig = "wrong-datum|ptr>null.*|&invalid"
 			}
-			c.Violation(sig, fmt.Sprintf("record %d: an independent reader sees %s where %s was written (value %s; difference at %s) — %s", i, datums[i], want, gv.Show(univ.ProbeField(recs[i])), path, desc), detail)
+			c.Violation(sig, fmt.Sprintf("record %d: an independent reader sees %s where %s was written (value %s; difference at %s) — %s", i, datums[i], want, gv.Show(pf(pc, recs[i])), path, desc), detail)
 			return
 		}
 	}
@@ -390,7 +471,27 @@ func clipS(s string) string {
 	return s
 }
 
+func runWhole(c *fw.Ctx, w which, idx int, pc probeCase) {
+	vals := wholeValues(pc.probe.Type)
+	n := 0
+	mode := func() int { n++; return (idx + n) % filedrv.NumModes }
+	for _, a := range vals {
+		runOne(c, w, pc, []reflect.Value{a}, config{comp: "null", bs: 65536, mode: mode()})
+		for _, b := range vals {
+			runOne(c, w, pc, []reflect.Value{a, b}, config{comp: "null", bs: 65536, mode: mode()})
+			runOne(c, w, pc, []reflect.Value{a, b, a}, config{comp: "snappy", bs: 0, mode: mode()})
+		}
+	}
+	if idx%53 == 0 {
+		c.Sample(map[string]interface{}{"type": pc.probe.Name, "static_generic_encoder": false, "alphabet": len(vals), "example_sequence": seqDesc(vals[:1])})
+	}
+}
+
 func runProbe(c *fw.Ctx, w which, idx int, pc probeCase) {
+	if pc.whole {
+		runWhole(c, w, idx, pc)
+		return
+	}
 	ft := pc.probe.Expr.Type()
 	full := univ.Values(ft, pc.depth <= 1)
 	reps := univ.Values(ft, false)
@@ -483,7 +584,7 @@ func rule(tier string, what string) string {
 	if tier == "thorough" {
 		d = "depth<=1 statically (320 generated types through the real generic Encoder[T]) and dynamically; depth 2 (256 expressions × 4 tags) and depth 3 (1024 expressions) dynamically"
 	}
-	return "probe struct types struct{c0; F τ `tag`; c1; c2} with canary fields, τ over 16 leaves {bool,int,int16,int32,int64,float32,float64,string,[]byte,time.Time,null.Int/Bool/Float/String/Time,Rec} and wrappers {*τ,[]τ,map[string]τ,struct{X τ}}: " + d + "; per type: every value sequence of length<=2 over the full value alphabet, every length-3 sequence over 3 representatives × {null,deflate,snappy} × block size {0,1,size of two records,65536} × every subset of flush positions, reader chunking rotating over {full,1-byte,data+EOF}; for the string and []byte leaves also records of 66–70 kB and a 400-record block of >64 KiB (larger than the reader's read-ahead chunk) under every codec; " + what + "; a case is one (type, sequence, configuration); non-trivial = encoding succeeded and the output reached the oracle"
+	return "probe struct types struct{c0; F τ `tag`; c1; c2} with canary fields, τ over 16 leaves {bool,int,int16,int32,int64,float32,float64,string,[]byte,time.Time,null.Int/Bool/Float/String/Time,Rec} and wrappers {*τ,[]τ,map[string]τ,struct{X τ}}: " + d + "; per type: every value sequence of length<=2 over the full value alphabet, every length-3 sequence over 3 representatives × {null,deflate,snappy} × block size {0,1,size of two records,65536} × every subset of flush positions, reader chunking rotating over {full,1-byte,data+EOF}; 66 multi-field record types (every arrangement of six *int64 / *string fields, and two mixed ones with slices, maps and nested pointers) with 4 value patterns in sequences of <=3 (allocation order inside one record); for the string and []byte leaves also records of 66–70 kB and a 400-record block of >64 KiB (larger than the reader's read-ahead chunk) under every codec; " + what + "; a case is one (type, sequence, configuration); non-trivial = encoding succeeded and the output reached the oracle"
 }
 
 func register(id string, w which, level, what string, assumptions []string) {
